@@ -35,6 +35,8 @@ SIG_MAP_KEYERROR = 'C07:mapping-gc-keyerror-leaves-partial-state'
 EPOCH = 1577836800        # 2020-01-01 00:00:00 UTC; model time m <-> EPOCH + 15*m seconds
 STEP = 15                 # multiples of 15 s are exactly representable in a TimeStamp
 ROOT = 0
+MAPLIKE = ('map', 'demo')             # MappingStorage, DemoStorage() over a temporary MappingStorage
+FSLIKE = ('fs', 'demofs')             # FileStorage, DemoStorage(changes=FileStorage)
 
 
 # ------------------------------------------------------------------------------------------ time
@@ -138,7 +140,7 @@ def gen_history(rng, ntx):
                 seen.add(o)
                 k = rng.choice([0, 0, 1, 1, 2, 3]) if o != ROOT else rng.choice([0, 1, 2, 2, 3])
                 refs = [rng.choice(pool) for _ in range(k)]
-                if rng.random() < 0.03:
+                if rng.random() < 0.02:
                     refs.append(9)                       # never created: dangling reference
                 weak = [rng.choice(pool)] if rng.random() < 0.08 else []
                 recs.append([o, refs, weak])
@@ -151,7 +153,8 @@ def gen_history(rng, ntx):
             stores.append(m)
         elif r < 0.86:
             # undo: mostly recent transactions, sometimes old ones or earlier undos
-            cand = allm[-3:] if rng.random() < 0.7 else allm
+            x = rng.random()
+            cand = allm[-1:] if x < 0.45 else (allm[-3:] if x < 0.8 else allm)
             ops.append(dict(m=m, op='undo', target=rng.choice(cand)))
         else:
             ops.append(dict(m=m, op='delete', oids=sorted({rng.choice(pool) for _ in range(rng.choice([1, 1, 2]))})))
@@ -162,6 +165,8 @@ def gen_history(rng, ntx):
 def gen_sequences(rng, ops, thorough):
     """pack sequences for one history: [[T, gc], [T2, gc2], …]"""
     ms = [op['m'] for op in ops]
+    if not ms:                                   # empty database
+        return [[[1, 1], [1, 1]], [[5, 0], [3, 0]], [[4, 1], [8, 0]]]
     times = sorted(set([1] + ms + [m + 1 for m in ms]))
     seqs = []
     for T in times:
@@ -184,8 +189,10 @@ class Truth(dict):
 def open_storage(kind, path):
     if kind == 'fs':
         return Z['FS'](path)
-    if kind == 'demo':
+    if kind == 'demofs':
         return Z['DS'](base=Z['MS'](), changes=Z['FS'](path))
+    if kind == 'demo':
+        return Z['DS']()                     # temporary MappingStorage changes: pack delegates with gc
     return Z['MS']()
 
 
@@ -195,7 +202,7 @@ def apply_ops(st, kind, ops, truth, serial=None):
     serial = {} if serial is None else serial
     done = []
     for op in ops:
-        if kind == 'map' and op['op'] != 'store':
+        if kind in MAPLIKE and op['op'] != 'store':
             continue
         tid = real_tid(op['m'])
         t = Z['TMD']('u%d' % (op['m'] % 3), 'txn %d' % op['m'])
@@ -354,7 +361,7 @@ def judge_pack(before, after, T, gc, kind, outcome, truth, bounds, counts):
     """The property, sentence by sentence, for ONE pack call at time T.  Returns [(signature, what)]."""
     H = Hist(before['listing'], truth)
     reachT = H.live_reach(T + 1)
-    fslike = kind in ('fs', 'demo')
+    fslike = kind in FSLIKE
     bad = []
 
     def removable_object(o):                 # sentence 1, second clause
@@ -420,7 +427,7 @@ def judge_pack(before, after, T, gc, kind, outcome, truth, bounds, counts):
                                                'reachable at T' if o in reachT else 'written after T')))
     # a refused pack (exception) must leave everything as it was
     if outcome.startswith('err:'):
-        mapping_gc_keyerror = (kind == 'map' and outcome == 'err:KeyError')
+        mapping_gc_keyerror = (kind in MAPLIKE and outcome == 'err:KeyError')
         if not mapping_gc_keyerror and (
                 full_listing(before['listing']) != full_listing(after['listing'])
                 or before['loads'] != after['loads'] or before['cur'] != after['cur']):
@@ -440,7 +447,7 @@ def judge_repack(before, after, T, prevT, gc, kind, outcome):
     removed = [k for k in rb if k not in ra]
     only_tombstones = (removed and all(rb[k] is None for k in removed) and
                        all(k in rb and rb[k] == d for k, d in ra.items()))
-    sig = SIG_REPACK if (kind in ('fs', 'demo') and only_tombstones) else 'C07:repack-changed'
+    sig = SIG_REPACK if (kind in FSLIKE and only_tombstones) else 'C07:repack-changed'
     return [(sig, 'second pack(T=%d, gc=%d) after pack(T=%d) on %s (%s) changed the storage: removed %r'
              % (T, gc, prevT, kind, outcome, sorted(removed)))]
 
@@ -507,7 +514,7 @@ def run_case(case, tmp, want_model=True):
         done, serial = apply_ops(st, kind, ops, truth)
         res['log'] = done
         ms = [op['m'] for op in ops]
-        bounds = sorted(set(ms + [max(ms) + 1]))
+        bounds = sorted(set(ms + [max(ms) + 1])) if ms else [1, 4, 9]
         oids = sorted({ROOT} | {o for op in ops if op['op'] == 'store' for o, _, _ in op['recs']}
                       | {x for op in ops if op['op'] == 'store' for _, r, _ in op['recs'] for x in r})
         before = observe(st, oids, bounds)
@@ -515,7 +522,7 @@ def run_case(case, tmp, want_model=True):
         if want_model:
             res['lines'] += model_lines_history(before['listing'])
             res['expect'] += [None] * (len(res['lines']) - 2) + ['sorted=1 backok=1 onerec=1', None]
-        if kind != 'map':
+        if kind in FSLIKE:
             st.close()
             shutil.copy(path, path + '.orig')
             st = open_storage(kind, path)
@@ -526,44 +533,46 @@ def run_case(case, tmp, want_model=True):
             if i == 0 and want_model:
                 res['lines'].append('nr %d' % T)
                 res['expect'].append(('nr', T, gc))
-            if kind != 'map' and os.path.exists(path + '.old'):
+            if kind in FSLIKE and os.path.exists(path + '.old'):
                 os.remove(path + '.old')
             outcome = do_pack(st, T, gc)
-            if kind != 'map' and outcome == 'done':
+            if kind in FSLIKE and outcome == 'done':
                 outcome = 'ok' if os.path.exists(path + '.old') else 'none'
             counts['pack:%s:%s' % (kind, outcome)] = counts.get('pack:%s:%s' % (kind, outcome), 0) + 1
             after = observe(st, oids, bounds)
             if maxT is not None and T <= maxT and all(g == gc for _, g in seq[:i + 1]):
                 res['bad'] += judge_repack(before, after, T, maxT, gc, kind, outcome)
-            if kind == 'demo' and gc and outcome == 'err:TypeError':
-                if full_listing(before['listing']) != full_listing(after['listing']):
-                    res['bad'].append(('C07:failed-pack-changed-storage', 'DemoStorage gc pack refused but changed'))
-            else:
-                res['bad'] += judge_pack(before, after, T, gc, kind, outcome, truth, bounds, counts)
+            # DemoStorage(changes=FileStorage) refuses gc (TypeError) — and, on this tree, every pack
+            # (AttributeError: _temporary_changes): a refusal must leave everything as it was
+            demo_refused = kind == 'demofs' and outcome in ('err:TypeError', 'err:Other(AttributeError)')
+            res['bad'] += judge_pack(before, after, T, gc, kind, outcome, truth, bounds, counts)
             if any(bk is not None and bk <= T < t['m'] for t in before['listing'] for _, _, bk in t['recs']):
                 crossing = True
             if len(rec_set(after['listing'])) < len(rec_set(before['listing'])):
                 freed = True
             if want_model:
-                mgc = gc if kind != 'demo' else 0
-                if kind == 'demo' and gc:
+                mgc = gc if kind != 'demofs' else 0     # demofs delegates with gc=False
+                if demo_refused:
                     pass                                # refused by DemoStorage itself: model not consulted
                 else:
-                    res['lines'].append('%s.pack %d %d' % ('map' if kind == 'map' else 'fs', T, mgc))
-                    if kind == 'map':
+                    res['lines'].append('%s.pack %d %d' % ('map' if kind in MAPLIKE else 'fs', T, mgc))
+                    if kind in MAPLIKE:
                         res['expect'].append(('mapout', outcome))
                     else:
                         res['expect'].append(('fsout', outcome))
                 res['lines'].append('dump')
                 res['expect'].append(canon_dump(after['listing']))
-                res['lines'].append('loads %d %s %s' % (T, ','.join(map(str, oids)), ','.join(map(str, bounds))))
-                res['expect'].append(canon_loads(after, T, oids, bounds))
+                # (a packed FileStorage answers b <= an earlier pack time by prev-chasing through
+                #  records whose prev is 0: outside the property, not compared)
+                Tc = T if maxT is None else max(T, maxT)
+                res['lines'].append('loads %d %s %s' % (Tc, ','.join(map(str, oids)), ','.join(map(str, bounds))))
+                res['expect'].append(canon_loads(after, Tc, oids, bounds))
             if not outcome.startswith('err:'):
                 maxT = T if maxT is None else max(maxT, T)
             before = after
         res['nontrivial'] = bool(crossing and freed)
         # reopen: the packed file answers identically
-        if kind != 'map':
+        if kind in FSLIKE:
             st.close()
             if case.get('drop_index') and os.path.exists(path + '.index'):
                 os.remove(path + '.index')
@@ -592,7 +601,7 @@ def undo_series(st, kind, path, first, T, gc, oids, truth, counts, serial):
     """undo the (up to 4) newest transactions after T, newest first, on the packed storage and on a
     fresh copy of the unpacked file; outcomes and resulting current states must agree"""
     targets = [t['m'] for t in first['listing'] if t['m'] > T and t['status'] == ' '][-4:][::-1]
-    if not targets:
+    if not targets or kind not in FSLIKE:
         return []
     last = max(t['m'] for t in first['listing'])
 
@@ -630,7 +639,7 @@ def undo_series(st, kind, path, first, T, gc, oids, truth, counts, serial):
         for t in first['listing']:
             if t['m'] in targets:
                 involved |= {o for o, _, _ in t['recs']}
-    known = (kind in ('fs', 'demo') and gc and involved and
+    known = (kind in FSLIKE and gc and involved and
              all(o not in reachT and H.written_after(o, T) for o in diff) and
              any(o not in reachT and H.written_after(o, T) for o in involved))
     return [(SIG_GARBAGE_WRITTEN if known else 'C07:undo-after-pack-differs',
@@ -722,12 +731,12 @@ def main(argv=None):
         cases += load_corpus()
         nh = 40 if not ck.thorough else 1000
         for i in range(nh):
-            ops = gen_history(ck.rng, ck.rng.choice([3, 4, 5, 6, 7, 8, 9]))
+            ops = gen_history(ck.rng, ck.rng.choice([3, 4, 5, 6, 7, 8, 9])) if i % 40 != 7 else []
             seqs = gen_sequences(ck.rng, ops, ck.thorough)
-            kinds = ['fs', 'map'] + (['demo'] if i % 4 == 0 else [])
+            kinds = ['fs', 'map'] + (['demo', 'demofs'] if i % 4 == 0 else [])
             for kind in kinds:
                 for seq in seqs:
-                    if kind == 'demo' and ck.rng.random() < 0.5:
+                    if kind.startswith('demo') and ck.rng.random() < 0.6:
                         continue
                     cases.append(dict(ops=ops, kind=kind, seq=seq, drop_index=ck.rng.random() < 0.5))
     # ---- real code + oracle
@@ -781,7 +790,7 @@ def main(argv=None):
         rule='seeded object-graph histories (3-9 transactions over root + 5 oids: stores with bare/tuple/weak '
              'references, cycles, garbage, undo incl. undo of creation / of undo, deleteObject, dangling refs) x '
              'every pack time (each tid, each midpoint, before the first) x gc on/off x {FileStorage, '
-             'MappingStorage, 1/4 DemoStorage(changes=FileStorage)}, each followed by a pack to the same/an '
+             'MappingStorage, and for 1/4 of the histories DemoStorage() and DemoStorage(changes=FileStorage)}, each followed by a pack to the same/an '
              'earlier time, reopen and an undo series; a case = one pack sequence on one storage; non-trivial = '
              'the sequence frees >= 1 record and a back pointer (data_txn) of a record after T points to a '
              'transaction at or before T; distinct by hash of (ops, storage, sequence)',
